@@ -25,11 +25,12 @@ class C05(Check):
     prop_module = "PoxModel.Properties.C05"
     lean_targets = ["drv_c05"]
     driver = "drv_c05"
-    theorems = ["Pox.C05.reachable_inv", "Pox.C05.sorted_inv", "Pox.C05.delivery_exact", "Pox.C05.delivery_order", "Pox.C05.reentrant_safe",
-                "Pox.C05.once_removed", "Pox.C05.unsubscribe_exact", "Pox.C05.sources_independent", "Pox.C05.noerrors_partial",
-                "Pox.C05.noerrors_defect", "Pox.C05.undeclared_rejected", "Pox.C05.weak_gone", "Pox.C05.lazy_init",
-                "Pox.C05.once_raises_defect", "Pox.C05.noerrors_fixed", "Pox.C05.once_removed_raising", "Pox.C05.insertion_position",
-                "Pox.C05.bind_prefix_exact", "Pox.C05.weak_midflight", "Pox.Revent.drive_eq_run"]
+    theorems = ["Pox.C05.reachable_inv", "Pox.C05.sorted_inv", "Pox.C05.insertion_position", "Pox.C05.delivery_exact", "Pox.C05.delivery_exact_live",
+                "Pox.C05.delivery_order", "Pox.C05.reentrant_safe", "Pox.C05.once_removed_later", "Pox.C05.once_removed_raising",
+                "Pox.C05.once_fires_once", "Pox.C05.once_inflight_witness", "Pox.C05.remove_inflight_witness", "Pox.C05.unsubscribe_exact",
+                "Pox.C05.bind_prefix_exact", "Pox.C05.sources_independent", "Pox.C05.noerrors", "Pox.C05.noerrors_partial",
+                "Pox.C05.undeclared_rejected", "Pox.C05.nonevent_rejected", "Pox.C05.nonevent_defect", "Pox.C05.weak_gone", "Pox.C05.weak_midflight",
+                "Pox.C05.lazy_init", "Pox.C05.noerrors_defect", "Pox.C05.once_raises_defect", "Pox.Revent.drive_eq_run"]
     # name-based anchors, resolved on the current source at every run (robust to line shifts); the range of a definition
     # starts at its first statement after the docstring (the `def` line itself only runs at import time)
     ANCHORED = [("pox/lib/revent/revent.py", q) for q in (
@@ -67,29 +68,47 @@ class C05(Check):
                   True: "try:\n    if classCall:\n        rv = event._invoke(handler, *args, **kw)\n    else:\n        rv = handler(event, *args, **kw)\n"
                         "finally:\n    if once:\n        self.removeListener(eid)"}
 
+    ONCEPRE_SHAPE = "if once and (not self.removeListener(eid)):\n    continue"
+    JUNK_SHAPES = {False: ("issubclass(event, Event)", "classCall = False"),
+                   True: ("isinstance(event, type) and issubclass(event, Event)", "raise ReventError('%s is not an event' % (event,))")}
+
     def detect_variant(self):
         import ast, os
         tree = ast.parse(open(os.path.join(common.REPO, "pox/lib/revent/revent.py")).read())
         cls = [n for n in tree.body if isinstance(n, ast.ClassDef) and n.name == "EventMixin"][0]
         fns = {f.name: f for f in cls.body if isinstance(f, ast.FunctionDef)}
+        out = {}
+        def unknown(name, text):
+            # not one of the known shapes: check the tree against the model of the unrepaired code (the oracle and the
+            # correspondence then say what the change does); the evidence records that the shape was not recognised
+            common.log("C05: revent.py %s site has an unknown shape; modelled as unrepaired:\n%s" % (name, text[:300]))
+            self.unknown_shapes.append(name)
+            out[name] = False
+        # D24: the body of `except ReventError` in raiseEventNoErrors
         tries = [n for n in fns["raiseEventNoErrors"].body if isinstance(n, ast.Try)]
         hs = [h for t in tries for h in t.handlers if h.type is not None and ast.unparse(h.type) == "ReventError"]
-        if len(hs) != 1: raise RuntimeError("raiseEventNoErrors: `except ReventError` not found")
-        t24 = "\n".join(ast.unparse(x) for x in hs[0].body)
+        t24 = "\n".join(ast.unparse(x) for x in hs[0].body) if len(hs) == 1 else "<no `except ReventError`>"
+        hits = [k for k, shape in self.D24_SHAPES.items() if t24 == shape]
+        if len(hits) == 1: out["d24"] = hits[0]
+        else: unknown("d24", t24)
+        # the dispatch loop of raiseEvent: optional one-shot claim first (oncePre), then the call with or without `finally` (D60)
         loops = [n for n in fns["raiseEvent"].body if isinstance(n, ast.For)]
-        if len(loops) != 1: raise RuntimeError("raiseEvent: dispatch loop not found")
-        t60 = "\n".join(ast.unparse(x) for x in loops[0].body)
-        out = {}
-        for name, text, shapes in (("d24", t24, self.D24_SHAPES), ("d60", t60, self.D60_SHAPES)):
-            hits = [k for k, shape in shapes.items() if text == shape or (name == "d60" and text.startswith(shape + "\n"))]
-            if len(hits) != 1:
-                # not one of the two known shapes: check the tree against the model of the code as it stands (the oracle and the
-                # correspondence then say what the change does); the evidence records that the shape was not recognised
-                common.log("C05: revent.py %s site has an unknown shape; modelled as unrepaired:\n%s" % (name, text[:300]))
-                self.unknown_shapes.append(name)
-                out[name] = False
-            else:
-                out[name] = hits[0]
+        body = list(loops[0].body) if len(loops) == 1 else []
+        out["oncePre"] = bool(body) and ast.unparse(body[0]) == self.ONCEPRE_SHAPE
+        if out["oncePre"]: body = body[1:]
+        t60 = "\n".join(ast.unparse(x) for x in body)
+        hits = [k for k, shape in self.D60_SHAPES.items() if t60 == shape or t60.startswith(shape + "\n")]
+        if len(hits) == 1: out["d60"] = hits[0]
+        else: unknown("d60", t60)
+        # what raiseEvent does with an argument that is neither an Event nor an Event subclass
+        top = [n for n in fns["raiseEvent"].body if isinstance(n, ast.If) and ast.unparse(n.test) == "isinstance(event, Event)"]
+        tj = "<no `if isinstance(event, Event)`>"
+        if len(top) == 1 and len(top[0].orelse) == 1 and isinstance(top[0].orelse[0], ast.If):
+            el = top[0].orelse[0]
+            tj = (ast.unparse(el.test), "\n".join(ast.unparse(x) for x in el.orelse))
+        hits = [k for k, shape in self.JUNK_SHAPES.items() if tj == shape]
+        if len(hits) == 1: out["junk"] = hits[0]
+        else: unknown("junk", str(tj))
         return out
 
     def extra_evidence(self):
@@ -100,8 +119,10 @@ class C05(Check):
                     "harness: scripted handlers, event ids normalised by the value of revent._nextEventID at case start, "
                     "exception classes mapped to {revent, key, other}"]
     assumptions = ["the same event *instance* is not raised twice (each raise gets a fresh event object); Event._invoke is not overridden",
-                   "'never invoked again' is read as 'not invoked by any raise that starts after the removal': a delivery already in flight "
-                   "keeps the snapshot it took (the statement's 'every handler subscribed at that moment is invoked exactly once' demands it)",
+                   "reading of the one-shot clauses (see level_text): 'one-shot handlers are never invoked again' = the code of a one-shot "
+                   "subscription runs at most once ever (the oracle demands it; open finding C05-1 on the tree as committed); 'handlers that ask "
+                   "to be removed are never invoked again' = not by any raise that starts after the removal, a delivery already in flight keeps "
+                   "the snapshot it took ('removals made by handlers during delivery never cause a handler to be skipped')",
                    "a handler 'halts the event' by the code's own protocol: a halting return value, or event.halt set while some handler "
                    "answers something other than None (a handler that sets event.halt and returns None does not stop the delivery: revent.py:299 "
                    "`continue` skips the test at 315) -- modelled as the code does it, reported as an observation",
@@ -114,13 +135,18 @@ class C05(Check):
     technique = ("Lean 4 proof (invariants of a small-step machine with an explicit stack of delivery frames, for all handler behaviours and "
                  "all histories) + differential correspondence of the compiled model against real EventMixin objects with scripted handlers "
                  "+ independent Python oracle of the property over the observed invocation log")
-    level_text = ("Theorems reachable_inv / sorted_inv / insertion_position / delivery_exact / delivery_order / reentrant_safe / once_removed / "
-                  "unsubscribe_exact / bind_prefix_exact / sources_independent / noerrors_partial / undeclared_rejected / weak_gone / weak_midflight / "
-                  "lazy_init over the model of EventMixin: for any number of sources sharing the event-id counter, every operation history, every handler "
+    level_text = ("Theorems over the model of EventMixin, for any number of sources sharing the event-id counter, every operation history, every handler "
                   "behaviour (handlers that subscribe, unsubscribe, raise and collect owners re-entrantly on any source to any depth, assign event.halt, "
-                  "return any value or raise) and every number of machine steps. The model is parameterised by which of the repairs D24 / D60 the tree has "
-                  "(read off the source on every run): noerrors_defect / once_raises_defect are kernel-checked witnesses for the tree as it stands, "
-                  "noerrors_fixed / once_removed_raising the full statements for the repaired variants. drive_eq_run: the driver's early-exit loop computes `run`.")
+                  "return any value or raise) and every number of machine steps: reachable_inv, sorted_inv, insertion_position, delivery_exact, "
+                  "delivery_exact_live, delivery_order, reentrant_safe, once_removed_later, once_removed_raising (D60), noerrors (D24), noerrors_partial, "
+                  "unsubscribe_exact (all five removeListener forms), bind_prefix_exact, sources_independent, undeclared_rejected, weak_gone, "
+                  "weak_midflight, lazy_init. The model is parameterised by the repairs the tree has (read off the source on every run; the tree "
+                  "as committed is Variant.current = D24 + D60). READING of the one-shot clauses: per raise the snapshot rules (delivery_exact); a "
+                  "one-shot subscription's code runs at most once ever, which the tree as committed violates under a re-entrant raise "
+                  "(once_inflight_witness, finding C05-1) and fixes/C05_once_fires_once repairs (once_fires_once, for every history); a handler that "
+                  "asks to be removed is not invoked by raises that start afterwards but an in-flight delivery still reaches it "
+                  "(remove_inflight_witness). nonevent_defect / nonevent_rejected: raising a non-event (finding C05-2 / its repair). "
+                  "noerrors_defect / once_raises_defect are regression witnesses for a tree that reverts D24 / D60.")
     level_note = ("Trusted: Lean kernel, axioms propext/Classical.choice/Quot.sound, the hand-written model Model/Revent.lean (which mirrors the code "
                   "after fixes D01 and D28) and this harness. The theorems are about the model; the run ties it to the code on exhaustive small "
                   "histories and random histories of up to 80 operations on one or two sources with re-entrant, cross-source scripts. Event types "
@@ -171,11 +197,11 @@ class C05(Check):
         raise ValueError(k)
 
     def _exc(self, e):
-        return {"revent": self.rv.ReventError, "key": KeyError, "attr": AttributeError, "other": Boom}[e]("scripted")
+        return {"revent": self.rv.ReventError, "key": KeyError, "attr": AttributeError, "unbound": UnboundLocalError, "other": Boom}[e]("scripted")
 
     @staticmethod
     def _kind(e):
-        return {"ReventError": "revent", "KeyError": "key", "AttributeError": "attr", "Boom": "other",
+        return {"ReventError": "revent", "KeyError": "key", "AttributeError": "attr", "UnboundLocalError": "unbound", "Boom": "other",
                 "TypeError": "other"}.get(type(e).__name__, type(e).__name__)
 
     # ------------------------------------------------------------------ the implementation run
@@ -198,7 +224,7 @@ class C05(Check):
             srcs.append(type("Src%d" % i, (rv.EventMixin,), ns)())
         base = rv._nextEventID
         scripts = {h: l for h, l in case["scripts"]}
-        log, snaps, rmchecks, addchecks, subs, bindchecks = [], {}, [], [], [], []
+        log, snaps, rmchecks, addchecks, subs, bindchecks, junkchecks = [], {}, [], [], [], [], []
         calls, funcs, owners, sinks, keep, running, deaths = {}, {}, {}, {}, [], [], []
         state = {"fid": 0}
         EMPTY = {"halt": None, "acts": [], "ret": {"k": "none"}}
@@ -357,6 +383,18 @@ class C05(Check):
                 del o; gc.collect(1)
                 if wr() is not None: gc.collect()          # only a reference cycle could have kept it; none is built here
                 return "unit"
+            if op == "raise" and a["form"] in ("junkc", "junko"):
+                # something that is neither an event instance nor an event class
+                state["fid"] += 1
+                junk = [int, dict, Boom][a.get("v", 0) % 3] if a["form"] == "junkc" else [5, "x", None, 2.5][a.get("v", 0) % 4]
+                f = src.raiseEventNoErrors if a["noerr"] else src.raiseEvent
+                try:
+                    r = f(junk)
+                except Exception as e:
+                    junkchecks.append([i, a["noerr"], ["exc", self._kind(e)]]); raise
+                res = "none" if r is None else ["event", bool(r.halt)]
+                junkchecks.append([i, a["noerr"], res])
+                return res
             if op == "raise":
                 et, fid = a["et"], state["fid"]; state["fid"] += 1
                 snaps[fid] = {"s": i, "et": et, "noerr": a["noerr"], "form": a["form"], "pos": len(log),
@@ -391,7 +429,7 @@ class C05(Check):
         final = [dump(i) for i in range(n)]
         return {"log": log, "frames": frames, "final": final, "count": [sum(len(l) for _, l in f) for f in final],
                 "inited": [hasattr(s_, "_eventMixin_handlers") for s_ in srcs],
-                "snaps": {str(k): v for k, v in snaps.items()}, "rmchecks": rmchecks, "addchecks": addchecks, "drops": drops, "subs": subs, "bindchecks": bindchecks, "deaths": deaths}
+                "snaps": {str(k): v for k, v in snaps.items()}, "rmchecks": rmchecks, "addchecks": addchecks, "drops": drops, "subs": subs, "bindchecks": bindchecks, "deaths": deaths, "junkchecks": junkchecks}
 
     # ------------------------------------------------------------------ model side
     def model_request(self, case):
@@ -445,6 +483,10 @@ class C05(Check):
             if e[0] == "call": calls.setdefault(e[1], []).append((i, e[3], e[2]))
             elif e[0] == "ret": rets.setdefault(e[1], []).append((i, e[2], e[3], e[4]))
         nested = self._nested(log)
+        hids_by_frame = {f_: set(h for _, h, _ in c_) for f_, c_ in calls.items()}
+        removing = any(a["op"] in ("rmh", "rme", "rmp", "rmm", "clear", "drop") for a in
+                       list(case["ops"]) + [a for _, sl in case["scripts"] for sc_ in sl for a, _ in sc_["acts"]])
+        fired = collections.Counter()          # one-shot subscription -> how often its code ran
         for fid, s in sorted(snaps.items()):
             S, C, R = s["snap"], calls.get(fid, []), rets.get(fid, [])
             want = [e[1] for e in S]
@@ -460,7 +502,12 @@ class C05(Check):
                 continue
             if any(si != s["s"] for _, _, si in C): return "delivery: handler invoked with an event of another source"
             # entries whose (weak) owner was collected while this delivery was running are excused: the proxy answers by itself
-            dead_during = lambda ent: ent[4] is not None and any(o == ent[4] and pos >= s["pos"] for o, pos in obs["deaths"])
+            def dead_during(ent, _s=s, _fid=fid):
+                if ent[4] is not None and any(o == ent[4] and pos >= _s["pos"] for o, pos in obs["deaths"]): return True
+                # a tree with the one-shot claim (oncePre) skips a one-shot entry that is not subscribed any more: fired by another
+                # delivery, or unsubscribed by someone
+                return bool(self.variant["oncePre"] and ent[2] and
+                            (removing or any(ent[1] in hs_ for f_, hs_ in hids_by_frame.items() if f_ != _fid)))
             # an alignment of the invoked handlers with the snapshot in which every skipped entry is excused, and the tail is
             # either excused too (complete) or cut off by a stop
             halted = bool(R and len(R) == len(C) and self._stops(R[-1][2], R[-1][3]))
@@ -486,6 +533,8 @@ class C05(Check):
                 else:
                     kind = "skip"
                 return "delivery%s: handlers invoked %s, subscribed at the raise %s (%s)" % ("-reentrant" if nested else "", got, want, kind)
+            for ent in matched:
+                if ent[2]: fired[(s["s"], ent[3])] += 1
             # error suppression
             if s["noerr"] and isinstance(s["result"], list) and s["result"][0] == "exc":
                 return "noerrors: raiseEventNoErrors propagated a handler's %s" % s["result"][1]
@@ -498,6 +547,13 @@ class C05(Check):
                     if any(e[3] == ent[3] for l in later for e in l):
                         return ("once: one-shot handler that raised %s is still subscribed" % r[1]) if raised else \
                                "once: a one-shot / remove-me handler is still subscribed after it ran"
+        # a one-shot handler fires at most once, ever (reading R2; also under re-entrant raises)
+        for (si, eid), cnt in sorted(fired.items()):
+            if cnt > 1: return "once: the code of one-shot subscription %d ran %d times (a re-entrant raise fired it while an outer delivery held it)" % (eid, cnt)
+        # something that is not an event at all is certainly not a declared event type
+        for si, noerr, res in obs["junkchecks"]:
+            if res != ["exc", "revent"] and not (noerr and S_[si]["acceptAll"] and res == "none"):
+                return "undeclared: raising a non-event was not rejected (%s)" % (res[1] if isinstance(res, list) else res)
         # unsubscription
         for form, was, still, res in obs["rmchecks"]:
             if still: return "unsubscribe: removeListener form %s left the subscription in place (%s)" % (form, res)
@@ -551,6 +607,8 @@ class C05(Check):
         if failure.startswith("once: one-shot handler that raised"): return "once:handler-raises:still-subscribed"
         if failure.startswith("unsubscribe: subscription"): return "unsubscribe:vanished-without-reason"
         if failure.startswith("order:"): return "order:list-not-sorted"
+        if failure.startswith("once: the code of one-shot"): return "once:fired-twice:reentrant-raise"
+        if failure.startswith("undeclared: raising a non-event"): return "undeclared:non-event-raise:" + failure.rsplit("(", 1)[1].rstrip(")")
         if failure.startswith("undeclared: raising an instance"): return "undeclared:instance-accepted:" + failure.rsplit("(", 1)[1].rstrip(")").replace(" ", "-")
         if failure.startswith("unsubscribe:"):
             return "unsubscribe:" + failure.split("form ")[1].split(" ")[0] + ":" + failure.rsplit("(", 1)[1].rstrip(")")
@@ -636,6 +694,17 @@ class C05(Check):
                           [(1, [sc(halt=True), sc()]), (2, [sc(ret=k, **kw), sc(ret=k, halt=True, **kw)]), (3, [sc(ret="other")])]))
             S.append(case([add(0, 1), add(0, 2), add(0, 3), R(0)],
                           [(1, [sc(halt=True)]), (2, [sc(halt=False, ret=k, **kw)]), (3, [sc(ret="other", halt=None)])]))
+        # something that is not an event: a class, an object; plain and with error suppression; also on an accept-all source
+        for acc in (False, True):
+            S.append(case([add(0, 1)] + [dict(R(0, f, ne), v=v) for f in ("junkc", "junko") for ne in (False, True) for v in range(3)] + [R(0), cnt()],
+                          [(1, [sc([(dict(R(0, "junkc")), True), (dict(R(0, "junko", True)), False), (dict(R(0, "junko")), False)])])],
+                          declared=[] if acc else [0, 1], acceptAll=acc))
+        # re-entrant raise while an outer delivery holds a one-shot handler; a one-shot handler that re-raises from inside itself
+        S.append(case([add(0, 1), add(0, 2, once=True), R(0), R(0)], [(1, [sc([(R(0), False)])])]))
+        S.append(case([add(0, 1, once=True), add(0, 2, 3, once=True), add(0, 3), R(0), R(0)],
+                      [(2, [sc([(R(0, "cls"), False)])]), (3, [sc([(R(0), True)]), sc()])]))
+        S.append(case([add(0, 1, once=True), add(0, 2, once=True, weak=1), add(0, 3), R(0), cnt()],
+                      [(3, [sc()]), (1, [sc([(rme(2), False), (R(0), False)])])]))
         # nested raise of the same type with a one-shot handler; nested raise of another type; noerrors at depth
         S.append(case([add(0, 1), add(0, 2, once=True), add(0, 3), R(0), R(0)], [(1, [sc([(R(0), False)])])]))
         S.append(case([add(0, 1), add(1, 2), add(1, 3, 5), add(0, 4), R(0), R(1)],
@@ -772,6 +841,8 @@ class C05(Check):
             ctx["adds"] += len(meths)
             return {"op": "bind", "s": s, "meths": [list(m) for m in meths], "pfx": rng.choice([0, 0, 1, 1, 2, 3]), "base": 100 * ctx["binds"],
                     "prio": rng.choice([0, 0, 4, -2]), "weak": weak, "via": rng.randint(0, 5)}
+        if x > 0.985:
+            return dict(self.raise_(0, rng.choice(["junkc", "junko"]), rng.random() < 0.3, s), v=rng.randint(0, 11))
         return self.raise_(rng.choice(ets), rng.choice(["inst", "inst", "cls"]), rng.random() < 0.3, s)
 
     def rand_ret(self, rng):
